@@ -172,16 +172,17 @@ func (fg *FnGen) appendOp(args []*Val, resT types.Type, pos token.Pos) *Val {
 		fresh := fg.fresh("app.elems", ArrSort(leaf.Sort))
 		old := Select(a, arr)
 		j := Term{"j!", SInt}
-		// prefix preserved
-		pre := Implies(And(Le(IntLit(0), j), Lt(j, n)), Eq(Select(fresh, Add(roff, j)), Select(old, Add(off, j))))
-		fg.assume(Term{fmt.Sprintf("(forall ((j! Int)) (! %s :pattern (%s)))", pre.S, Select(fresh, Add(roff, j)).S), SBool})
+		// prefix preserved (absolute index j into the result array; patterns without arithmetic)
+		pre := Implies(And(Le(roff, j), Lt(j, Add(roff, n))), Eq(Select(fresh, j), Select(old, Add(off, Sub(j, roff)))))
+		fg.assume(Term{fmt.Sprintf("(forall ((j! Int)) (! %s :pattern (%s)))", pre.S, Select(fresh, j).S), SBool})
 		// in-place: everything outside [off+n, off+n+k) unchanged
 		inp := Implies(And(inplace, Or(Lt(j, Add(off, n)), Ge(j, Add(off, Add(n, k))))), Eq(Select(fresh, j), Select(old, j)))
 		fg.assume(Term{fmt.Sprintf("(forall ((j! Int)) (! %s :pattern (%s)))", inp.S, Select(fresh, j).S), SBool})
 		if srcIsSlice {
 			srcInner := Select(a, srcArr)
-			ap := Implies(And(Le(IntLit(0), j), Lt(j, k)), Eq(Select(fresh, Add(roff, Add(n, j))), Select(srcInner, Add(srcOff, j))))
-			fg.assume(Term{fmt.Sprintf("(forall ((j! Int)) (! %s :pattern (%s)))", ap.S, Select(fresh, Add(roff, Add(n, j))).S), SBool})
+			lo := Add(roff, n)
+			ap := Implies(And(Le(lo, j), Lt(j, Add(lo, k))), Eq(Select(fresh, j), Select(srcInner, Add(srcOff, Sub(j, lo)))))
+			fg.assume(Term{fmt.Sprintf("(forall ((j! Int)) (! %s :pattern (%s)))", ap.S, Select(fresh, j).S), SBool})
 		}
 		if fg.pass == 2 && !fg.modAll {
 			// in-place append writes into the backing array of s
